@@ -295,12 +295,16 @@ def run_zip(case, ctx):
         exp = [tuple(s[0] if len(s) == 1 else s[i] for s in seqs) for i in range(n)] if live else []
         ctx.check('zipper_model', st == 'ok' and len(got) == len(exp) and all(same(tuple(a), b) or all(x == y for x, y in zip(a, b)) for a, b in zip(got, exp)), lambda: 'zipper(%r) = %s %r, model %r' % (live, st, got, exp))
         ctx.check('lens_model', stl == 'ok' and gl == n, lambda: 'lens over lengths %s = %s %r, model %d' % (lengths, stl, gl, n))
-    for v in live:
+    extra = [[[1, 2]], [[]], [[[1, 2]]], ([1, 2],), ((1, 2),), [(1, 2)], [[1], [2]], ([1], [2]), [None], (None,), [[None]]] if case.get('nested_norm') else []
+    for v in list(live) + extra:
         for fn, tp in ((as_list, list), (as_tuple, tuple)):
             st1, once = ctx.call(fn, v)
             st2, twice = ctx.call(lambda: fn(fn(v)))
             okk = st1 == st2 == 'ok' and type(once) is tp and type(twice) is tp and len(once) == len(twice) and all(a is b or same(a, b) for a, b in zip(once, twice))
-            ctx.check('as_list_idempotent', okk, lambda: '%s(%r) = %r ; twice = %r' % (fn.__name__, v, once, twice))
+            mech = None
+            if not okk and fn is as_tuple and st1 == st2 == 'ok' and isinstance(once, tuple) and len(once) == 1 and isinstance(once[0], list) and twice == tuple(once[0]):
+                mech = 'as_tuple-of-single-list-element-unwraps-on-second-application'
+            ctx.check('as_list_idempotent', okk, lambda: '%s(%r) = %r ; twice = %r' % (fn.__name__, v, once, twice), mech=mech)
     if len(set(lengths)) > 1:
         ctx.mark_nontrivial(case)
     ctx.cls('zip:' + ('mismatch' if len(S) > 1 else 'ok'))
@@ -319,7 +323,7 @@ def gen_zip_case(rng):
             n = base if rng.random() < 0.6 else rng.choice([0, 1, 2, 3, 4])
             vals.append([rng.choice([1, 2, 3, 'a']) for _ in range(n)])
             forms.append(rng.choice(['list', 'tuple', 'range', 'array', 'list']))
-    return {'kind': 'zip', 'vals': vals, 'forms': forms}
+    return {'kind': 'zip', 'vals': vals, 'forms': forms, 'nested_norm': rng.random() < 0.3}
 
 
 # ------------------------------------------------------------------ waiter
@@ -334,6 +338,19 @@ def run_waiter(case, ctx):
         futs = [loop.create_future() for _ in range(k)]
         for i, f in enumerate(futs):
             f.add_done_callback(lambda _f, i=i: completed.append(i))
+
+        events = [asyncio.Event() for _ in range(k)]
+        pred = {order[j]: (order[j - 1] if j else None) for j in range(k)}
+
+        async def chained(i):
+            # completes only after its predecessor in the prescribed completion order has completed: needs all awaitables to run concurrently
+            if pred[i] is not None:
+                await events[pred[i]].wait()
+            await asyncio.sleep(0)
+            if not futs[i].done():
+                futs[i].set_result('v%d' % i)
+            events[i].set()
+            return 'v%d' % i
 
         async def via_coro(i):
             v = await futs[i]
@@ -354,6 +371,8 @@ def run_waiter(case, ctx):
                     return futs[i]
                 if form == 'coro':
                     return via_coro(i)
+                if form == 'chained':
+                    return chained(i)
                 if form == 'task':
                     tk = loop.create_task(via_coro(i)); tasks.append(tk)
                     return tk
@@ -391,7 +410,11 @@ def run_waiter(case, ctx):
             import pyg_base
             return getattr(pyg_base, kk[1:])(body)
 
+        all_chained = case.get('chained')
+
         async def driver():
+            if all_chained:
+                return
             for i in order:
                 await asyncio.sleep(0)
                 await asyncio.sleep(0)
@@ -401,7 +424,7 @@ def run_waiter(case, ctx):
             structure = build(struct_t)
             res, _ = await asyncio.gather(waiter(structure), driver())
             return res
-        st, got = ctx.call(lambda: loop.run_until_complete(asyncio.wait_for(main(), 20)))
+        st, got = ctx.call(lambda: loop.run_until_complete(asyncio.wait_for(main(), 5 if case.get('chained') else 20)))
     finally:
         try:
             pend = [t for t in asyncio.all_tasks(loop) if not t.done()]
@@ -413,6 +436,10 @@ def run_waiter(case, ctx):
             pass
         loop.close()
     exp = expect(struct_t)
+    if st == 'exc' and isinstance(got, (asyncio.TimeoutError, TimeoutError)) and case.get('chained'):
+        ctx.ev('waiter_structure_values')
+        ctx.fail('waiter_structure_values', 'waiter(%r) never returned when its awaitables had to complete in the order %s (they only make progress if all of them are run concurrently)' % (struct_t, order))
+        return
     ctx.check('waiter_structure_values', st == 'ok' and same(got, exp), lambda: 'waiter(%r) under completion order %s = %s %r, expected %r' % (struct_t, order, st, got if st == 'ok' else core.exc_str(got), exp))
     ctx.check('waiter_distinct_schedules', completed == list(order), lambda: 'harness: completion sequence observed %s != prescribed %s' % (completed, order))
     if list(order) != sorted(order):
@@ -466,6 +493,16 @@ def run(spec, ctx):
         rng = random.Random('C19w/%d/%d/%d' % (spec['seed'], spec['shard'], i))
         k = rng.choice([1, 2, 3, 4, 4, 5, 6]) if spec['tier'] == 'thorough' else rng.choice([2, 3, 4, 5])
         s = gen_waiter_struct(rng, k)
+        chained_struct = None
+        if i % 3 == 2:
+            def to_chained(t):
+                if isinstance(t, dict) and '$aw' in t:
+                    return {'$aw': t['$aw'], 'form': 'chained'}
+                ks_, cs_ = children(t)
+                if ks_ is None:
+                    return t
+                return rebuild(t, [to_chained(c) for c in cs_])
+            chained_struct = to_chained(s)
         orders = list(itertools.permutations(range(k)))
         if len(orders) > spec['cap']:
             orders = rng.sample(orders, spec['cap'])
@@ -473,6 +510,8 @@ def run(spec, ctx):
             ctx.cls('waiter:structures_all_orders')
         for order in orders:
             case = {'kind': 'waiter', 'struct': s, 'order': list(order)}
+            if chained_struct is not None:
+                case = {'kind': 'waiter', 'struct': chained_struct, 'order': list(order), 'chained': True}
             ctx.case(case)
             ctx.run_case(case, run_case)
             if ctx.full():
